@@ -37,8 +37,12 @@ def _gen_case(rng):
     for _ in range(rng.randint(1, 4)):
         b = rng.choice(hot) if rng.random() < 0.5 else rng.choice(buses + [int(net.ext_grid.bus.values[0])])
         vm = vmb.setdefault(int(b), rng.choice([1.0, 1.01, 1.02, 0.99]))
+        kw = {}
+        if rng.random() < 0.5:
+            lo = pf.g8(rng, -16, 0)
+            kw = dict(min_q_mvar=lo, max_q_mvar=lo + pf.g8(rng, 0, 16))
         pp.create_gen(net, b, p_mw=pf.g8(rng, 0, 16), vm_pu=vm, scaling=rng.choice([1.0, 1.0, 0.5]),
-                      in_service=rng.random() < 0.9, slack_weight=rng.choice(W))
+                      in_service=rng.random() < 0.9, slack_weight=rng.choice(W), **kw)
     # several reference buses: further ext_grids / slack gens on other buses (newtonpf keeps ref[0], turns ref[1:] into PV)
     if rng.random() < 0.4:
         cand = [b for b in buses if b not in vmb]
@@ -73,6 +77,11 @@ def _gen_case(rng):
     opts = {"numba": False, "distributed_slack": True, "voltage_depend_loads": rng.random() < 0.7}
     if rng.random() < 0.6:
         opts["lightsim2grid"] = False        # pandapower's own newtonpf; otherwise lightsim2grid is picked automatically when possible
+    if rng.random() < 0.25:
+        opts["enforce_q_lims"] = True        # q-limit loop around the distributed slack power flow (xward slack share must survive)
+        opts["voltage_depend_loads"] = False   # limited gens folded into a ZIP bus demand are C01's recorded finding C01-qlim-zip
+        if rng.random() < 0.6 and len(buses):
+            pp.create_load(net, rng.choice(buses), p_mw=pf.g8(rng, 0, 8), q_mvar=rng.choice([-1, 1]) * pf.g8(rng, 8, 40))
     return net, opts
 
 
@@ -199,6 +208,11 @@ def _one(ctx, rng, T, given=None, sample=False):
     nontriv = len(parts) >= 2
     ctx.count("participants_%d" % min(sum(1 for _, w, _ in gens if w != 0), 6))
     ctx.count("xwards_%d" % len(net.xward))
+    if opts.get("enforce_q_lims"):
+        lim = 0
+        if "min_q_mvar" in net.gen:
+            lim = int(sum(1 for j in net.gen.index if net.gen.in_service.at[j] and (abs(net.res_gen.q_mvar.at[j] - net.gen.max_q_mvar.at[j]) < 1e-6 or abs(net.res_gen.q_mvar.at[j] - net.gen.min_q_mvar.at[j]) < 1e-6)))
+        ctx.count("enforce_q_lims_gens_at_limit_%d" % min(lim, 3))
     ctx.count("solver_%s" % ("lightsim2grid" if net._options.get("lightsim2grid") else "newtonpf"))
     ctx.count("reference_buses_%d" % min(len(set(int(b) for b in net._ppc["internal"]["ref"])) if "ref" in net._ppc["internal"] else 0, 4))
     # (b) gen rows after pfsoln with widened reference sets
